@@ -714,7 +714,15 @@ func c11ExecPipe(r *sim.Run, sc *c11PipeSc) {
 			}
 			exp[gi][x.id] = norm(c11FullOutcome(rec), gi)
 		}
-		twin.Close()
+		func() {
+			defer func() { tpv = recover() }()
+			twin.Close()
+		}()
+		if tpv != nil {
+			r.Probe("c11.pipe.twin_close_panics/" + kind)
+			r.Eventf("twin close panics: %v", tpv)
+			return
+		}
 	}
 	hooks.life = map[string]int{}
 
